@@ -15,7 +15,7 @@ ASSUMPTIONS = ['compute fields are only placed where the protocol stack defines 
 def run(rep, tier, seed):
     rnd = rng_for(seed, 'C03')
     b = Batch(rep)
-    npk = 160 if tier == 'quick' else 2000
+    npk = 400 if tier == 'quick' else 4000
     for i in range(npk):
         stack, pkt, st, pd = gen_parsed(rnd, ALL_STACKS[i % len(ALL_STACKS)])
         npd = n_pdesc(pd)
@@ -34,7 +34,7 @@ def run(rep, tier, seed):
         r0 = no_compression_rule(randbits(rnd, rnd.randint(1, 16)))
         s = bits_of(r0.id) + bits_of(pd.raw)
         case_decompress(b, s, r0, None, klass='decompress:no-compression', expect=bits_of(pd.raw), side=rnd.choice([L, R]))
-    for i in range(500 if tier == 'quick' else 6000):
+    for i in range(1500 if tier == 'quick' else 15000):
         rule, vals = synth_case(rnd)
         pl = payload_variants(rnd)
         pd = synth_pdesc(rule, vals, pl)
